@@ -6,6 +6,7 @@ document - also after thresholds or remove_empty_shapes removed shapes.  Every S
 sh:node object is a declared sh:NodeShape and every property shape has exactly one path.
 Oracle: independent recursive-descent ShExC reader; rdflib Turtle parser + graph queries for SHACL.
 """
+import os
 from hypothesis import strategies as st
 from .. import sut, oracle, common, refmodel, shexc, gen_graph as gg
 from ..runner import ok, violation, known, discard
@@ -99,6 +100,10 @@ def cases(draw):
     if draw(st.integers(0, 4)) == 0:
         # the document under test is the one emitted by a LATER call on the same Shaper (another threshold / format first)
         case["earlier_call"] = [draw(st.sampled_from([0, 0.5, 1])), draw(st.sampled_from(["ShEx", "Shacl"]))]
+    if draw(st.integers(0, 4)) == 0:
+        # the document under test is the one left in a file: the file may exist already (an earlier document of the same
+        # Shaper or junk), and the text may be requested as a string in the same call
+        case["file_sink"] = {"also_string": draw(st.booleans()), "stale": draw(st.sampled_from([None, "earlier", "junk"]))}
     if inp == "ttl":
         case["ttl_prefixes"] = draw(st.sampled_from(TTL_PREFIXES))
     elif draw(st.integers(0, 5)) == 0:
@@ -217,7 +222,22 @@ def _check(case, split_dir):
         if any(t[0][0] == "bnode" or t[2][0] == "bnode" for t in triples):
             pass    # rdflib relabels bnodes; irrelevant for well-formedness
     fmt = case["format"]
-    if case.get("earlier_call"):
+    if case.get("file_sink"):
+        fs = case["file_sink"]
+
+        def go():
+            path = os.path.join(split_dir, "document.out")
+            sh = sut.Shaper(**kw)
+            if fs["stale"] == "junk":
+                with open(path, "w", encoding="utf-8") as f:
+                    f.write("PREFIX : <http://stale.org/>\n:Old {\n}\n" * 40)
+            elif fs["stale"] == "earlier":
+                sh.shex_graph(output_file=path, string_output=fs["also_string"], acceptance_threshold=(case.get("earlier_call") or [0.5])[0], output_format=fmt)
+            sh.shex_graph(output_file=path, string_output=fs["also_string"], acceptance_threshold=case["thr"], output_format=fmt)
+            with open(path, encoding="utf-8", newline="") as f:
+                return f.read()
+        text, crash = sut.guarded(go, 30)
+    elif case.get("earlier_call"):
         def go():
             sh = sut.Shaper(**kw)
             sh.shex_graph(string_output=True, acceptance_threshold=case["earlier_call"][0], output_format=case["earlier_call"][1])
@@ -228,7 +248,9 @@ def _check(case, split_dir):
     if crash is not None:
         return discard("crash:" + crash.bucket)
     labels = {"shexc" if fmt == "ShEx" else "shacl"}
-    if case.get("earlier_call"):
+    if case.get("file_sink"):
+        labels.add("document-from-file")
+    elif case.get("earlier_call"):
         labels.add("second-call-on-same-shaper")
     if case.get("split_instances") is not None:
         labels.add("instances-from-separate-file")
